@@ -115,7 +115,7 @@ def explore(ctx, recipe, rng):
                 # everything the task embeds was submitted (dry-run) before; the root is generated for real
                 builder.step(["submit", root, []], b)
             finally:
-                xp.__exit__(RuntimeError, None, None)
+                xpctx.leave_experiment(xp)
                 import shutil
 
                 shutil.rmtree(wd, ignore_errors=True)
